@@ -127,13 +127,14 @@ func (s *sliceMachine) Assign(task *Task) {
 
 // Discard discards the storage resources held by task. The task will be
 // unassigned from s and considered TaskLost. If s does not own task, no-op.
-func (s *sliceMachine) Discard(ctx context.Context, task *Task) {
+// Discard returns whether s owned task.
+func (s *sliceMachine) Discard(ctx context.Context, task *Task) bool {
 	s.mu.Lock()
 	_, ok := s.tasks[task]
 	delete(s.tasks, task)
 	s.mu.Unlock()
 	if !ok {
-		return
+		return false
 	}
 	// s exclusively owns task's state during this time, so this does not race
 	// with anything else. The task is marked lost only after the worker has
@@ -144,6 +145,7 @@ func (s *sliceMachine) Discard(ctx context.Context, task *Task) {
 		log.Error.Printf("error discarding %v: %v", task, err)
 	}
 	task.Set(TaskLost)
+	return true
 }
 
 // Go manages a sliceMachine: it polls stats at regular intervals and
